@@ -8,7 +8,7 @@ import asyncio
 from vt import explore
 from vt.env.iprig import IpRig, std_handler
 
-BEHAVIOURS = ["ok", "close-m1", "http-400", "wrong-id", "bad-sig", "auth-error", "garbage", "m4-auth-error", "close-m3", "busy-error", "http-470", "ok-bad-subscribe-reply", "ok+slow-close"]
+BEHAVIOURS = ["ok", "close-m1", "http-400", "wrong-id", "bad-sig", "auth-error", "garbage", "m4-auth-error", "close-m3", "busy-error", "http-470", "ok-bad-subscribe-reply", "ok-close-on-subscribe", "ok-reset-on-subscribe", "ok+slow-close"]
 
 
 def mk_description(hosts, port=51826, c=1, s=1, acc_id="aa:bb:cc:dd:ee:ff"):
@@ -33,6 +33,11 @@ class ReconnH(explore.Harness):
         def _bad_sub(sess, method, target, headers, body):
             if getattr(sess, "bad_subscribe", False):
                 return 207, b'{"characteristics":[{"aid":1,"iid":9}]}', "application/hap+json"
+            if getattr(sess, "close_on_subscribe", False):
+                # the peer goes away instead of answering the re-subscription that connection_made(True) sends
+                conn = next(c for c in self.net.conns if getattr(c, "session", None) is sess)
+                self.loop.call_soon(conn.peer_reset if sess.close_on_subscribe == "reset" else conn.peer_close)
+                return None
             return 204, b"", None
 
         self.rig.acc.handler = std_handler({("PUT", "/characteristics"): _bad_sub})
@@ -97,6 +102,10 @@ class ReconnH(explore.Harness):
             beh = beh[: -len("+slow-close")]
         if beh in ("wrong-id", "bad-sig", "auth-error", "garbage", "m4-auth-error", "busy-error", "http-400", "http-470"):
             sess.fault = beh
+        elif beh == "ok-close-on-subscribe":
+            sess.close_on_subscribe = True
+        elif beh == "ok-reset-on-subscribe":
+            sess.close_on_subscribe = "reset"  # connection reset (no EOF first): connection_lost(exc) is the first the protocol hears of it
         elif beh == "ok-bad-subscribe-reply":
             # secure session is fine, but the reply to the re-subscription is malformed (a 207 whose entry has no status): whatever
             # connection_made(True) does with it, the connection must not be leaked
